@@ -292,72 +292,58 @@ def r_wrappers(ctx: Ctx, model):
                        f"iast_point_fraction passes partial pressures {[str(x) for x in getattr(pp, 'items', [pp])]} (branch {cap.get('branch')}); required "
                        "fraction_i * total_pressure for the fractions as given (they need not sum to one), branch and guess threaded"),
            nontrivial_key=("wrap", "fraction"))
-    # iast_binary_svp / iast_binary_vle: interpreted with a two-row matrix abstraction; iast_point_fraction is replaced by a
-    # recorder that returns fresh loadings (n0_k, n1_k) per call
+    # iast_binary_svp / iast_binary_vle: interpreted with symbolic numpy arrays (ndsym: the array algebra is carried out by numpy on
+    # symbolic elements); iast_point_fraction is replaced by a recorder that returns fresh loadings (n0_k, n1_k) per call
+    import numpy as _np
+    from ..ndsym import eq_arrays, install_nd, to_np
+
+    def arr(*xs):
+        return _np.array(list(xs), dtype=object)
     for which in ("iast_binary_svp", "iast_binary_vle"):
         fi = model.func(f"{IA}.{which}")
         I = mk(model)
+        install_nd(I)
         calls = []
 
         def rec(I, fi_, env, n, calls=calls):
             k = len(calls)
             calls.append(dict(env))
-            return Vec([S(f"n0_{k}"), S(f"n1_{k}")])
+            return arr(S(f"n0_{k}"), S(f"n1_{k}"))
         I.overrides[f"{IA}.iast_point_fraction"] = rec
-        I.ext["numpy.linspace"] = lambda I, a, k, n: Vec([S(f"yl{j}") for j in range(int(I.to_py(a[2], n)))])
-
-        def np_array(I, a, k, n):
-            v = a[0]
-            if isinstance(v, (tuple, list)) and v and all(isinstance(x, Vec) for x in v):
-                return Obj(kind="Mat", attrs={"rows": [Vec(list(x.items)) for x in v]})
-            return v if isinstance(v, Vec) else Vec(list(v))
-        I.ext["numpy.array"] = np_array
-        I.ext["numpy.asarray"] = np_array
-        # column_stack((a, b)) == array((a, b)).transpose(): rows are the pairs
-        I.ext["numpy.column_stack"] = lambda I, a, k, n: Obj(kind="Mat", attrs={"rows": [Vec([c.items[j] for c in a[0]]) for j in range(len(a[0][0].items))]})
-        I.ext["numpy.vstack"] = lambda I, a, k, n: Obj(kind="Mat", attrs={"rows": [Vec(list(x.items)) for x in a[0]]})
-        I.ext["numpy.zeros"] = lambda I, a, k, n: Obj(kind="Mat", attrs={"rows": [Vec([sp.Integer(0)] * int(I.to_py(a[0][1], n)))
-                                                                                  for _ in range(int(I.to_py(a[0][0], n)))]})
-        I.libmeth[("Mat", "transpose")] = lambda I, v, a, k, n: Obj(kind="Mat", attrs={"rows": [Vec([r.items[j] for r in v.attrs["rows"]])
-                                                                                                for j in range(len(v.attrs["rows"][0].items))]})
-        I.libmeth[("Mat", "__iter__")] = lambda I, v, a, k, n: list(v.attrs["rows"])
-
-        def mat_set(I, v, a, k, n):
-            idx, val = a
-            row = int(I.to_py(idx[0], n))
-            v.attrs["rows"][row] = val if isinstance(val, Vec) else Vec(list(val))
-        I.libmeth[("Mat", "__setitem__")] = mat_set
-        I.ext["builtins.len"] = (lambda old: lambda I, a, k, n: sp.Integer(len(a[0].attrs["rows"])) if isinstance(a[0], Obj) and a[0].kind == "Mat" else old(I, a, k, n))(I.ext["builtins.len"])
+        I.ext["numpy.linspace"] = lambda I, a, k, n: arr(*[S(f"yl{j}") for j in range(int(I.to_py(a[2], n)))])
         isos = [Obj(kind="IsoW", label=f"iso{i}", attrs={"pressure_mode": "absolute", "pressure_unit": "bar", "adsorbate": f"A{i}"}) for i in range(2)]
         P = S("P")
+        y0 = S("y0")
         if which == "iast_binary_vle":
             args, kw = [isos, P], {"npoints": sp.Integer(2), "branch": "BR", "adsorbed_mole_fraction_guess": "G", "warningoff": True}
         else:
-            y0 = S("y0")
-            args, kw = [isos, Vec([y0, 1 - y0]), Vec([S("P0"), S("P1")])], {"branch": "BR", "adsorbed_mole_fraction_guess": "G", "warningoff": True}
+            args, kw = [isos, arr(y0, 1 - y0), arr(S("P0"), S("P1"))], {"branch": "BR", "adsorbed_mole_fraction_guess": "G", "warningoff": True}
         outs = I.explore(lambda I: (calls.clear(), I.call_func(fi, list(args), dict(kw), None))[1])
         ok = len(outs) == 1 and outs[0].kind == "ok" and isinstance(outs[0].value, dict)
         why = f"outcome {outs[:1]}"
+
+        def vec2(v):
+            v = to_np(I, v)
+            return list(v) if isinstance(v, (_np.ndarray, list, tuple)) and len(v) == 2 else None
         if ok:
             res = outs[0].value
             thread = all(c.get("branch") == "BR" and c.get("adsorbed_mole_fraction_guess") == "G" and c.get("isotherms") is isos for c in calls)
             if which == "iast_binary_vle":
                 ys = [S("yl0"), S("yl1")]
-                good_calls = len(calls) == 2 and all(isinstance(c.get("gas_mole_fraction"), Vec) and
-                                                     [sp.simplify(u - w) for u, w in zip(c["gas_mole_fraction"].items, (ys[j], 1 - ys[j]))] == [0, 0]
+                good_calls = len(calls) == 2 and all(vec2(c.get("gas_mole_fraction")) is not None and
+                                                     eq_arrays(arr(*vec2(c["gas_mole_fraction"])), arr(ys[j], 1 - ys[j]))
                                                      and c.get("total_pressure") == P for j, c in enumerate(calls))
-                xs_ = res.get("x")
-                xs_ = xs_.items if isinstance(xs_, Vec) else xs_
-                want = [0] + [S(f"n0_{j}") / (S(f"n0_{j}") + S(f"n1_{j}")) for j in range(2)] + [1]
-                good_x = xs_ is not None and len(xs_) == 4 and all(sp.simplify(sp.sympify(I.to_py(u, None) if not isinstance(u, sp.Basic) else u) - w) == 0 for u, w in zip(xs_, want))
+                xs_ = to_np(I, res.get("x"))
+                want = arr(0, *[S(f"n0_{j}") / (S(f"n0_{j}") + S(f"n1_{j}")) for j in range(2)], 1)
+                good_x = xs_ is not None and isinstance(xs_, (_np.ndarray, list, tuple)) and eq_arrays(_np.array(list(xs_), dtype=object), want)
                 ok = thread and good_calls and good_x
                 why = f"calls threaded={thread}, fractions/pressure passed correctly={good_calls}, x = n0/(n0+n1) with end points 0 and 1: {good_x} (x = {xs_})"
             else:
-                good_calls = len(calls) == 2 and all(c.get("total_pressure") == S(f"P{j}") and isinstance(c.get("gas_mole_fraction"), Vec)
-                                                     and sp.simplify(c["gas_mole_fraction"].items[0] - y0) == 0 for j, c in enumerate(calls))
-                sel = res.get("selectivity")
-                want = [(S(f"n0_{j}") / y0) / (S(f"n1_{j}") / (1 - y0)) for j in range(2)]
-                good_s = isinstance(sel, list) and len(sel) == 2 and all(sp.simplify(u - w) == 0 for u, w in zip(sel, want))
+                good_calls = len(calls) == 2 and all(c.get("total_pressure") == S(f"P{j}") and vec2(c.get("gas_mole_fraction")) is not None
+                                                     and sp.simplify(vec2(c["gas_mole_fraction"])[0] - y0) == 0 for j, c in enumerate(calls))
+                sel = to_np(I, res.get("selectivity"))
+                want = arr(*[(S(f"n0_{j}") / y0) / (S(f"n1_{j}") / (1 - y0)) for j in range(2)])
+                good_s = isinstance(sel, (_np.ndarray, list, tuple)) and eq_arrays(_np.array(list(sel), dtype=object), want)
                 ok = thread and good_calls and good_s
                 why = f"calls threaded={thread}, fractions/pressures passed correctly={good_calls}, selectivity = (n0/y0)/(n1/y1): {good_s} ({sel})"
         ctx.ob(ok, Finding("C13.I-wrappers", fi.where, f"{which}|formula", f"{which}: {why}"), nontrivial_key=("wrap", which))
@@ -404,6 +390,15 @@ def run(ctx: Ctx):
     ctx.rule("I-scale: no absolute-tolerance comparison on pressures / fractions / loadings inside pygaps.iast (any positive partial pressure counts)")
     no_absolute_tolerance(ctx, model, "C13", "I-scale", ("pygaps.iast.",), "partial pressures / mole fractions")
     from ..sites import no_memoisation
+    ctx.rule("I-fresh (point isotherms): the interpolated reads IAST makes on a point isotherm (loading_at / pressure_at with the default "
+             "arguments) do not reuse an interpolator an earlier call built for another branch / kind / fill value - the equations are "
+             "solved for the given isotherm, not for what an earlier query left in its cache (cache discipline of C03, interpreted)")
+    from . import C03
+    from ..spec_iso import all_states, mkstate
+    E3 = C03.Engine(ctx.root, False)
+    pres, load_, mat, tus = all_states(E3.t, False)
+    ncd = C03.cache_discipline(ctx, E3, mkstate(pres[0], load_[0], mat[0], tus[0]), prop="C13")
+    ctx.floor("cache-discipline cases", ncd, 30)
     ctx.rule("I-fresh: no caching decorator on any function of pygaps.iast., pygaps.modelling.")
     no_memoisation(ctx, load(ctx.root), "C13", "I-fresh", ('pygaps.iast.', 'pygaps.modelling.'),
                    "IAST would equate spreading pressures computed for other parameters")
